@@ -128,6 +128,7 @@ package anytype
 //@   ensures  len: len(ego.val) == n + m
 //@   ensures  prefix: forall j int :: 0 <= j && j < n ==> ego.val[j] == old(ego.val[j])
 //@   ensures  appended: forall j int :: n <= j && j < n + m ==> wrapsS(ego.val[j], values[j-n])
+//@   ensures  storage: arr(ego.val) == old(arr(ego.val)) || fresh(arr(ego.val))
 //@   ensures  fluent: result == ego.ptr [C19]
 //@   ensures  ptr-kept: ego.ptr == old(ego.ptr)
 //@   loop 1
@@ -151,6 +152,7 @@ package anytype
 //@   ensures  before: forall j int :: 0 <= j && j < index ==> ego.val[j] == old(ego.val[j])
 //@   ensures  at: wrapsS(ego.val[index], value)
 //@   ensures  after: forall j int :: index < j && j <= n ==> ego.val[j] == old(ego.val[j-1])
+//@   ensures  storage: arr(ego.val) == old(arr(ego.val)) || fresh(arr(ego.val))
 //@   ensures  fluent: result == ego.ptr [C19]
 //@   ensures  ptr-kept: ego.ptr == old(ego.ptr)
 
